@@ -36,6 +36,13 @@ const (
 	evT7Timeout                      // T7 NOT-SELECTED dwell expired: NotSelected -> NotConnected (no-op otherwise)
 )
 
+// stateClosedBit is OR-ed into the state word when evClose is processed. The close latch (closed)
+// is owned by run(), so the synchronous commits (CommitConnected / CommitSelected /
+// CommitSelectLost) cannot read it; folding the latch into the word they CAS on makes every commit
+// that lands after Close fail its CAS instead of moving a closed supervisor off NotConnected.
+// State() masks the bit, so readers only ever see a ConnState.
+const stateClosedBit = uint32(1) << 31
+
 // stateChange is one logical E37 transition, reported to the notifier as (prev -> next).
 type stateChange struct {
 	prev ConnState
@@ -175,7 +182,7 @@ func transition(cur ConnState, ev fsmEvent) (ConnState, bool) {
 
 // State returns the current logical E37 state via a lock-free atomic read.
 func (s *supervisor) State() ConnState {
-	return ConnState(s.state.Load())
+	return ConnState(s.state.Load() &^ stateClosedBit)
 }
 
 // CommitConnected performs the synchronous TCP-up commit (symmetric with CommitSelected / §7.D):
@@ -312,9 +319,16 @@ func (s *supervisor) step(ev fsmEvent) {
 				if !s.state.CompareAndSwap(uint32(cur), uint32(next)) {
 					return // concurrent commit changed state; the T7 disconnect is stale — abandon it
 				}
-			} else {
+			} else if ev != evClose {
 				s.state.Store(uint32(next))
 			}
+		}
+
+		if ev == evClose {
+			// Store unconditionally (a commit may have landed since the Load above, so cur can be
+			// stale) and with the closed bit set, so that no synchronous commit can move the word
+			// again: after Close, State() is NotConnected and stays so.
+			s.state.Store(uint32(NotConnectedState) | stateClosedBit)
 		}
 
 		if next != s.lastReacted {
